@@ -6,9 +6,9 @@
 (*   QXmppClient::send / _q_streamConnected (initial presence)             *)
 (*                                                                         *)
 (* One action per handler of the code and per move of the environment      *)
-(* (user: SendStanza, SendNonza, Destroy; server: Ack, Req, RecvStanza,    *)
-(* RecvNonza, ResumeOk, ResumeFail, EnableOk, EnableFail; network: Loss,   *)
-(* Reconnect).  The *mechanism* variables (enabled, out, inH, unacked,     *)
+(* (user: SendStanza, SendIqRequest, SendNonza, Destroy; server: Ack, Req, *)
+(* RecvStanza, RecvIqResponse, RecvIqGet, RecvNonza, ResumeOk, ResumeFail, *)
+(* EnableOk, EnableFail; network: Loss, Reconnect).  The *mechanism* variables (enabled, out, inH, unacked,     *)
 (* canResume) follow the code; the *ghost* variables (smAct, sess, covered, *)
 (* tracked, order, sessRecv) describe the same history from the server's   *)
 (* side / the property's vocabulary, so the C09 predicates relate the two. *)
@@ -35,10 +35,11 @@
 (*  - NewSessionNoSm (EnableFail, Reconnect(FALSE)): unacknowledged stanzas *)
 (*    stay queued when the next session has no stream management; they are *)
 (*    resent when a later session enables it again;                        *)
-(*  - ResumeFail leaves canResume set (the client will ask for the same    *)
-(*    session again after the next loss).                                  *)
-(* Intended behaviour where the code deviates (see docs/C09.md): inbound   *)
-(* stanzas are counted for the session that has stream management only.    *)
+(*  - ResumeFail leaves canResume set (if the connection is lost before a  *)
+(*    new session opens, the client asks for the same session again); a    *)
+(*    session opened without SM clears it (C2sStreamManager::onSessionOpened).*)
+(* Inbound stanzas are counted for the session that has stream management  *)
+(* only (the defect this check found in the pinned tree, since fixed).     *)
 (***************************************************************************)
 EXTENDS Naturals, Sequences, FiniteSets, TLC
 
@@ -61,6 +62,7 @@ VARIABLES phase,       \* "NegoEnable" | "NegoResume" | "Up" | "Down" | "Dead"
           outp,        \* what the last step wrote to the socket: sequence of [k, v]
                        \*   k = "s" stanza (v = id), "n" user nonza, "a" <a h=v/>, "resume" <resume h=v/>
           nzrep,       \* report of the nonza sent by the last step ("None" if it sent none)
+          pend,        \* OutgoingIqManager::m_requests: ids of the user's IQ requests still waiting for a response
           \* ghosts
           smAct,       \* the server regards stream management as active on the current session
           sess,        \* stanzas the server has been sent on the current SM session, in its numbering
@@ -70,7 +72,7 @@ VARIABLES phase,       \* "NegoEnable" | "NegoResume" | "Up" | "Down" | "Dead"
           sessRecv,    \* message/presence/iq received on the current SM session
           hist         \* behaviour export
 
-mvars == <<phase, enabled, canResume, out, inH, unacked, report, reportCount, conn, nid, outp, nzrep,
+mvars == <<phase, enabled, canResume, out, inH, unacked, report, reportCount, conn, nid, outp, nzrep, pend,
            smAct, sess, covered, tracked, order, sessRecv>>
 vars  == <<mvars, hist>>
 
@@ -90,7 +92,7 @@ Init ==
     /\ phase = "NegoEnable" /\ enabled = FALSE /\ canResume = FALSE
     /\ out = 0 /\ inH = 0 /\ unacked = <<>>
     /\ report = [i \in Ids |-> "None"] /\ reportCount = [i \in Ids |-> 0]
-    /\ conn = 1 /\ nid = 0 /\ outp = <<>> /\ nzrep = "None"
+    /\ conn = 1 /\ nid = 0 /\ outp = <<>> /\ nzrep = "None" /\ pend = {}
     /\ smAct = FALSE /\ sess = <<>> /\ covered = {} /\ tracked = {} /\ order = <<>> /\ sessRecv = 0
     /\ hist = <<>>
 
@@ -110,26 +112,35 @@ ReportAll(ids, what) ==
     /\ reportCount' = [i \in Ids |-> IF i \in ids THEN reportCount[i] + 1 ELSE reportCount[i]]
 IdsOf(u) == {u[i].id : i \in 1..Len(u)}
 
-(* --- QXmppClient::send -> StreamAckManager::internalSend ----------------- *)
-SendStanza ==
+(* --- StreamAckManager::internalSend for a stanza ------------------------- *)
+\* the next stanza id is handed to the send path (by the user or by the library itself)
+Emit(id) ==
+    /\ nid' = id
+    /\ outp' = IF Connected THEN <<S(id)>> ELSE <<>>
+    /\ IF enabled
+       THEN \* stored under the next number; the report waits for the acknowledgement
+            /\ out' = out + 1
+            /\ unacked' = Append(unacked, [n |-> out + 1, id |-> id])
+            /\ UNCHANGED <<report, reportCount>>
+       ELSE \* SendDuringNegotiation / session without SM / SendOffline
+            /\ ReportAll({id}, IF Connected THEN "Plain" ELSE "Failed")
+            /\ UNCHANGED <<out, unacked>>
+    /\ tracked' = IF smAct THEN tracked \cup {id} ELSE tracked
+    /\ order' = IF smAct THEN Append(order, id) ELSE order
+    /\ sess' = IF smAct THEN Append(sess, id) ELSE sess
+
+(* --- QXmppClient::send / QXmppClient::sendIq ------------------------------ *)
+\* sendIq registers the request with OutgoingIqManager and sends it through the same path; a
+\* send error (offline) finishes the request at once, so it never stays pending
+SendAny(iq) ==
     /\ phase # "Dead" /\ nid < MaxId
-    /\ LET id == nid + 1 IN
-        /\ nid' = id
-        /\ outp' = IF Connected THEN <<S(id)>> ELSE <<>>
-        /\ IF enabled
-           THEN \* stored under the next number; the report waits for the acknowledgement
-                /\ out' = out + 1
-                /\ unacked' = Append(unacked, [n |-> out + 1, id |-> id])
-                /\ UNCHANGED <<report, reportCount>>
-           ELSE \* SendDuringNegotiation / session without SM / SendOffline
-                /\ ReportAll({id}, IF Connected THEN "Plain" ELSE "Failed")
-                /\ UNCHANGED <<out, unacked>>
-        /\ tracked' = IF smAct THEN tracked \cup {id} ELSE tracked
-        /\ order' = IF smAct THEN Append(order, id) ELSE order
-        /\ sess' = IF smAct THEN Append(sess, id) ELSE sess
+    /\ Emit(nid + 1)
+    /\ pend' = IF iq /\ (enabled \/ Connected) THEN pend \cup {nid + 1} ELSE pend
     /\ nzrep' = "None"
-    /\ Log([a |-> "SendStanza"])
+    /\ Log([a |-> IF iq THEN "SendIqRequest" ELSE "SendStanza"])
     /\ UNCHANGED <<phase, enabled, canResume, inH, conn, smAct, covered, sessRecv>>
+SendStanza == SendAny(FALSE)
+SendIqRequest == SendAny(TRUE)
 
 SendNonza ==
     /\ phase # "Dead"
@@ -137,7 +148,7 @@ SendNonza ==
     /\ nzrep' = IF Connected THEN "Plain" ELSE "Failed"
     /\ Log([a |-> "SendNonza"])
     /\ UNCHANGED <<phase, enabled, canResume, out, inH, unacked, report, reportCount, conn, nid,
-                   smAct, sess, covered, tracked, order, sessRecv>>
+                   smAct, sess, covered, tracked, order, sessRecv, pend>>
 
 (* --- StreamAckManager::handleStanza: <a h/> ------------------------------ *)
 Ack(h) ==
@@ -149,7 +160,7 @@ Ack(h) ==
     /\ covered' = IF smAct THEN covered \cup CoveredBy(sess, h) ELSE covered
     /\ outp' = <<>> /\ nzrep' = "None"
     /\ Log([a |-> "Ack", h |-> h])
-    /\ UNCHANGED <<phase, enabled, canResume, out, inH, conn, nid, smAct, sess, tracked, order, sessRecv>>
+    /\ UNCHANGED <<phase, enabled, canResume, out, inH, conn, nid, smAct, sess, tracked, order, sessRecv, pend>>
 
 (* --- <r/> from the server ------------------------------------------------ *)
 Req ==
@@ -158,7 +169,7 @@ Req ==
     /\ nzrep' = "None"
     /\ Log([a |-> "Req"])
     /\ UNCHANGED <<phase, enabled, canResume, out, inH, unacked, report, reportCount, conn, nid,
-                   smAct, sess, covered, tracked, order, sessRecv>>
+                   smAct, sess, covered, tracked, order, sessRecv, pend>>
 
 (* --- inbound message / presence / iq ------------------------------------- *)
 RecvStanza ==
@@ -168,19 +179,43 @@ RecvStanza ==
     /\ outp' = <<>> /\ nzrep' = "None"
     /\ Log([a |-> "RecvStanza"])
     /\ UNCHANGED <<phase, enabled, canResume, out, unacked, report, reportCount, conn, nid,
+                   smAct, sess, covered, tracked, order, pend>>
+
+\* an <iq type='result'|'error'/> answering the user's pending request i: OutgoingIqManager consumes
+\* it (finishes the request); for the handled count it is a stanza like any other
+RecvIqResponse(i) ==
+    /\ phase = "Up" /\ inH < MaxRecv /\ i \in pend
+    /\ inH' = IF enabled THEN inH + 1 ELSE inH
+    /\ sessRecv' = IF smAct THEN sessRecv + 1 ELSE sessRecv
+    /\ pend' = pend \ {i}
+    /\ outp' = <<>> /\ nzrep' = "None"
+    /\ Log([a |-> "RecvIqResponse", i |-> i])
+    /\ UNCHANGED <<phase, enabled, canResume, out, unacked, report, reportCount, conn, nid,
                    smAct, sess, covered, tracked, order>>
+
+\* an <iq type='get'|'set'/> nobody handles: counted, then QXmppOutgoingClient::handleStanza answers
+\* it with an error IQ -- a stanza the library sends through the same path as any other
+RecvIqGet ==
+    /\ phase = "Up" /\ inH < MaxRecv /\ nid < MaxId
+    /\ inH' = IF enabled THEN inH + 1 ELSE inH
+    /\ sessRecv' = IF smAct THEN sessRecv + 1 ELSE sessRecv
+    /\ Emit(nid + 1)
+    /\ nzrep' = "None"
+    /\ Log([a |-> "RecvIqGet"])
+    /\ UNCHANGED <<phase, enabled, canResume, conn, smAct, covered, pend>>
 
 RecvNonza ==
     /\ phase = "Up"
     /\ outp' = <<>> /\ nzrep' = "None"
     /\ Log([a |-> "RecvNonza"])
     /\ UNCHANGED <<phase, enabled, canResume, out, inH, unacked, report, reportCount, conn, nid,
-                   smAct, sess, covered, tracked, order, sessRecv>>
+                   smAct, sess, covered, tracked, order, sessRecv, pend>>
 
 (* --- connection cut: _q_socketDisconnected -> closeSession -> onSessionClosed *)
 Loss ==
     /\ Connected
     /\ phase' = "Down" /\ enabled' = FALSE /\ smAct' = FALSE
+    /\ pend' = IF canResume THEN pend ELSE {}      \* OutgoingIqManager::onSessionClosed: cancelAll unless resumable
     /\ outp' = <<>> /\ nzrep' = "None"
     /\ Log([a |-> "Loss"])
     /\ UNCHANGED <<canResume, out, inH, unacked, report, reportCount, conn, nid,
@@ -208,16 +243,18 @@ Reconnect(sm) ==
     /\ IF sm /\ canResume
        THEN \* C2sStreamManager::requestResume: <resume h previd/>
             /\ phase' = "NegoResume" /\ outp' = <<R(inH)>>
-            /\ UNCHANGED <<out, unacked, report, reportCount, nid>>
+            /\ UNCHANGED <<out, unacked, report, reportCount, nid, pend, canResume>>
        ELSE IF sm
        THEN \* bind, then requestEnable
             /\ phase' = "NegoEnable" /\ outp' = <<>>
-            /\ UNCHANGED <<out, unacked, report, reportCount, nid>>
+            /\ UNCHANGED <<out, unacked, report, reportCount, nid, pend, canResume>>
        ELSE \* NewSessionNoSm: bind, session opens without stream management
             /\ nid < MaxId
             /\ phase' = "Up" /\ outp' = <<S(nid + 1)>>
             /\ Presence(FALSE, unacked)
-    /\ UNCHANGED <<enabled, canResume, inH, smAct, sess, covered, tracked, order, sessRecv>>
+            /\ pend' = {}                  \* onSessionOpened, not resumed: cancelAll
+            /\ canResume' = FALSE          \* C2sStreamManager::onSessionOpened: a plain session replaces the resumable one
+    /\ UNCHANGED <<enabled, inH, smAct, sess, covered, tracked, order, sessRecv>>
 
 (* --- <resumed h/>: onResumed -> setAcknowledgedSequenceNumber, enable(false) *)
 ResumeOk(h) ==
@@ -229,7 +266,7 @@ ResumeOk(h) ==
     /\ covered' = covered \cup CoveredBy(sess, h)
     /\ nzrep' = "None"
     /\ Log([a |-> "ResumeOk", h |-> h])
-    /\ UNCHANGED <<canResume, out, inH, conn, nid, sess, tracked, order, sessRecv>>
+    /\ UNCHANGED <<canResume, out, inH, conn, nid, sess, tracked, order, sessRecv, pend>>
 
 (* --- <failed/> to <resume/>: bind, then <enable/> ------------------------- *)
 ResumeFail ==
@@ -238,7 +275,7 @@ ResumeFail ==
     /\ outp' = <<>> /\ nzrep' = "None"
     /\ Log([a |-> "ResumeFail"])
     /\ UNCHANGED <<enabled, canResume, out, inH, unacked, report, reportCount, conn, nid,
-                   smAct, sess, covered, tracked, order, sessRecv>>
+                   smAct, sess, covered, tracked, order, sessRecv, pend>>
 
 (* --- <enabled resume='true'/>: onEnabled -> enableStreamManagement(true) -- *)
 \* counters restart, what is left is renumbered from 1 and resent, then the
@@ -253,6 +290,7 @@ EnableOk ==
         /\ sess' = Append(SeqMap(LAMBDA e : e.id, base), nid + 1)
     /\ tracked' = tracked \cup {nid + 1}
     /\ order' = Append(order, nid + 1)
+    /\ pend' = {}                          \* onSessionOpened, not resumed: cancelAll
     /\ nzrep' = "None"
     /\ Log([a |-> "EnableOk"])
     /\ UNCHANGED <<conn, covered>>
@@ -263,16 +301,17 @@ EnableFail ==
     /\ phase' = "Up"
     /\ Presence(FALSE, unacked)
     /\ outp' = <<S(nid + 1)>>
+    /\ pend' = {} /\ canResume' = FALSE
     /\ nzrep' = "None"
     /\ Log([a |-> "EnableFail"])
-    /\ UNCHANGED <<enabled, canResume, inH, conn, smAct, sess, covered, tracked, order, sessRecv>>
+    /\ UNCHANGED <<enabled, inH, conn, smAct, sess, covered, tracked, order, sessRecv>>
 
 (* --- ~QXmppOutgoingClient: resetCache ------------------------------------- *)
 Destroy ==
     /\ phase # "Dead"
     /\ phase' = "Dead" /\ enabled' = FALSE /\ smAct' = FALSE
     /\ ReportAll(IdsOf(unacked), "Failed")
-    /\ unacked' = <<>>
+    /\ unacked' = <<>> /\ pend' = {}
     /\ outp' = <<>> /\ nzrep' = "None"
     /\ Log([a |-> "Destroy"])
     /\ UNCHANGED <<canResume, out, inH, conn, nid, sess, covered, tracked, order, sessRecv>>
@@ -280,7 +319,8 @@ Destroy ==
 NewSessionNoSm == EnableFail \/ Reconnect(FALSE)     \* the named deviation, for coverage reports
 
 Next ==
-    \/ SendStanza \/ SendNonza \/ Req \/ RecvStanza \/ RecvNonza \/ Loss
+    \/ SendStanza \/ SendIqRequest \/ SendNonza \/ Req \/ RecvStanza \/ RecvIqGet \/ RecvNonza \/ Loss
+    \/ \E i \in Ids : RecvIqResponse(i)
     \/ \E h \in 0..MaxH : Ack(h)
     \/ \E sm \in BOOLEAN : Reconnect(sm)
     \/ \E h \in 0..MaxH : ResumeOk(h)
@@ -322,7 +362,7 @@ TypeOK ==
     /\ enabled \in BOOLEAN /\ canResume \in BOOLEAN /\ smAct \in BOOLEAN
     /\ out \in Nat /\ inH \in 0..MaxRecv /\ nid \in 0..MaxId /\ conn \in 1..MaxConn
     /\ (enabled => phase = "Up") /\ (enabled <=> smAct)
-    /\ inH = sessRecv
+    /\ inH = sessRecv /\ pend \subseteq 1..nid
     /\ covered \subseteq tracked /\ tracked = Range(order)
     \* the mechanism holds exactly what the property calls "not yet covered", in original order
     /\ (phase # "Dead" => SeqMap(LAMBDA e : e.id, unacked) = Expected(order, covered))
@@ -333,7 +373,7 @@ Reinit ==
     /\ phase' = "NegoEnable" /\ enabled' = FALSE /\ canResume' = FALSE
     /\ out' = 0 /\ inH' = 0 /\ unacked' = <<>>
     /\ report' = [i \in Ids |-> "None"] /\ reportCount' = [i \in Ids |-> 0]
-    /\ conn' = 1 /\ nid' = 0 /\ outp' = <<>> /\ nzrep' = "None"
+    /\ conn' = 1 /\ nid' = 0 /\ outp' = <<>> /\ nzrep' = "None" /\ pend' = {}
     /\ smAct' = FALSE /\ sess' = <<>> /\ covered' = {} /\ tracked' = {} /\ order' = <<>> /\ sessRecv' = 0
     /\ hist' = <<>>
 
@@ -341,6 +381,6 @@ Bound == Len(hist) <= MaxHist
 View  == mvars
 \* state identity for the transition tour: what the last step wrote is a function of the
 \* source state and the action, so it need not distinguish states
-TourView == <<phase, enabled, canResume, out, inH, unacked, report, reportCount, conn, nid,
+TourView == <<phase, enabled, canResume, out, inH, unacked, report, reportCount, conn, nid, pend,
               smAct, sess, covered, tracked, order, sessRecv>>
 =============================================================================
